@@ -24,26 +24,26 @@ TABLE = {}
 
 # sub-checks and generator regions added after the seeded-change rounds (DESIGN.md 6.5), appended to the level text
 ADDED = {
-    "C01": "ensembles on stored positions after an in-place re-orientation / rescale; the unit of length over 24 decades; Fourier generators whose period is assigned after construction; sampling by numerical inversion of the shipped radial cdf (3-D) and the cdf against closed forms; the quantile function at every probability the uniform generator can produce (ppf_law); lat-lon (+time) fields against their generator at hand-computed positions; variable units over 20 decades; wave-vector law in internal dimension 4 and 5.",
-    "C02": "rescale drawn on both sides of 1 together with non-default optional arguments; exponential-integral orders next to integers (magnitude-bounded known window); shape parameters assigned on already evaluated models.",
-    "C03": "hole-effect percentiles with rescale far from one; closed forms also for spatio-temporal / lat-lon models of the same dimension; integral scale re-read after in-place shape-parameter changes and in units of 1e-9 ... 1e9; Matern orders next to half-integers; per-axis scales / anis / angles assigned on evaluated models before the spatial variants are compared again.",
-    "C04": "radial pdf and mass in internal dimension 4 / 5 (radial_high_dim); a second model with its own Hankel settings present in the process; integer / list / scalar wave numbers (all classes incl. JBessel); densities after in-place rescale vs a fresh model; tiny relative cut-off scales.",
-    "C05": "plain simple kriging in units of 1e-16 ... 1e6 incl. per-point measurement errors; repeated measurements at one location; estimate-only calls before / after a re-assigned mean with and without the refresh; calls on the targets kept from the previous call after anis / angles changes; chunked structured meshes.",
-    "C06": "one conditioning location per call; estimate-only calls around a new mean at the conditioning points; re-conditioning on translated points; variable units 1e-20 ... 1e8; one call for > 1e5 condition-target pairs in map-like coordinates.",
-    "C07": "conditioning arrays overwritten by the caller afterwards; structured grids kriged in chunks; mesh-type switches on the same coordinate arrays, direct calls of the kriging object, results stored under other names, store=False and partial store lists, single-axis moves of the targets.",
-    "C08": "integer rasters with a sentinel; lat-lon default bins in several geographic units; directions through the angles keyword, tolerances beyond a right angle up to infinity, no_data with a constant mean, estimator names in any letter case.",
-    "C09": "values exactly on the normalizer's domain end; Fortran-ordered / transposed structured masks; fitted normalizers with missing values; the caller's masked array / field objects kept and estimated on twice (with and without the no_data marker).",
-    "C10": "documented default start of the optimisation; rescale factors 0.05 ... 25; input arrays as transposed views, Fortran order and read-only; directional fits of temporal models; Matern start orders on half-integers.",
-    "C11": "model dimension assigned in place; reference generators from directly constructed models; meshio meshes with 1-4 cell blocks; the isclose window of known finding K7 is evaluated by the check itself, not by the library's ==; calls without positions; edits through the user's own reference to the model object handed over last; dimensions 4-5 (high_dim).",
+    "C01": "element volumes with the default upscaling; incompressible fields with nugget and mean velocities 0.25 ... 3; ensembles on stored positions after an in-place re-orientation / rescale; the unit of length over 24 decades; Fourier generators whose period is assigned after construction; sampling by numerical inversion of the shipped radial cdf (3-D) and the cdf against closed forms; the quantile function at every probability the uniform generator can produce (ppf_law); lat-lon (+time) fields against their generator at hand-computed positions; variable units over 20 decades; wave-vector law in internal dimension 4 and 5.",
+    "C02": "out-of-range construction through var= and var_raw= must be refused; rescale drawn on both sides of 1 together with non-default optional arguments; exponential-integral orders next to integers (magnitude-bounded known window); shape parameters assigned on already evaluated models.",
+    "C03": "the reported integral scale prescribed again after a length change; hole-effect percentiles with rescale far from one; closed forms also for spatio-temporal / lat-lon models of the same dimension; integral scale re-read after in-place shape-parameter changes and in units of 1e-9 ... 1e9; Matern orders next to half-integers; per-axis scales / anis / angles assigned on evaluated models before the spatial variants are compared again.",
+    "C04": "refused dimension changes before the spectral functions are used; lat-lon models in the radial sub-check; radial pdf and mass in internal dimension 4 / 5 (radial_high_dim); a second model with its own Hankel settings present in the process; integer / list / scalar wave numbers (all classes incl. JBessel); densities after in-place rescale vs a fresh model; tiny relative cut-off scales.",
+    "C05": "requests of ~1e5 pairs far from the origin; the unit of length over 19 decades; plain simple kriging in units of 1e-16 ... 1e6 incl. per-point measurement errors; repeated measurements at one location; estimate-only calls before / after a re-assigned mean with and without the refresh; calls on the targets kept from the previous call after anis / angles changes; chunked structured meshes.",
+    "C06": "stored targets after re-orientation; structured grids with Fortran-ordered external drift; one conditioning location per call; estimate-only calls around a new mean at the conditioning points; re-conditioning on translated points; variable units 1e-20 ... 1e8; one call for > 1e5 condition-target pairs in map-like coordinates.",
+    "C07": "kriging with drift functions and an external drift together (regional_ext); conditioning arrays overwritten by the caller afterwards; structured grids kriged in chunks; mesh-type switches on the same coordinate arrays, direct calls of the kriging object, results stored under other names, store=False and partial store lists, single-axis moves of the targets.",
+    "C08": "coordinate trend with a mean function; structured grids with a repeated coordinate; integer rasters with a sentinel; lat-lon default bins in several geographic units; directions through the angles keyword, tolerances beyond a right angle up to infinity, no_data with a constant mean, estimator names in any letter case.",
+    "C09": "class-form normalizers after a fitted run; grid-shaped Fortran-ordered point lists; values exactly on the normalizer's domain end; Fortran-ordered / transposed structured masks; fitted normalizers with missing values; the caller's masked array / field objects kept and estimated on twice (with and without the no_data marker).",
+    "C10": "integer-typed bin centres (int_bins); documented default start of the optimisation; rescale factors 0.05 ... 25; input arrays as transposed views, Fortran order and read-only; directional fits of temporal models; Matern start orders on half-integers.",
+    "C11": "period arrays re-used by the caller; model dimension assigned in place; reference generators from directly constructed models; meshio meshes with 1-4 cell blocks; the isclose window of known finding K7 is evaluated by the check itself, not by the library's ==; calls without positions; edits through the user's own reference to the model object handed over last; dimensions 4-5 (high_dim).",
     "C12": "metric space-time models; objects evaluated, re-oriented in place and evaluated again on their stored positions; length-scale lists assigned to used models; ratios / angles as arrays the caller re-uses; Fourier generator pipelines (pipe_fourier).",
-    "C13": "a second request on one object for points inside the allclose window; kriging objects whose model is exchanged / changed in place; r2 of lat-lon fits recomputed in the great-circle geometry; structured lat-lon default bins; dim setter on temporal models; exact kriging at data locations written with other longitude labels.",
-    "C14": "constructor keywords vs setters (ctor sub-check); list parameters also as float arrays overwritten by the caller; isometrize and integral scale compared after every step / at the end; one set_arg_bounds call for var and another argument in either keyword order; lower cut-offs of 1e-8 ... 1e-10.",
-    "C15": "estimate-only vs estimate-and-variance kriging path around a new mean; obtuse / reversed direction pairs; wrapper amplitudes over 120 decades; tolerances / bandwidths / lattice points and sparse masked axis data handed unchanged to the kernels; directional counts vs the enumeration for tolerances up to infinity; kriging requests of ~1e7 right-hand-side entries vs a direct solve.",
-    "C16": "one request per stencil offset far from the origin; settings handed through set_generator; vector fields stored on meshio points / cell blocks (mesh_vectors); requests up to 140000 points; SRFs reused after in-place dim / len_scale / mode_no changes.",
-    "C17": "period arrays re-used by the caller; length units of 1e-6.",
-    "C18": "identity applied as processed transformation to scalar and vector fields; shift-only fits of BoxCoxShift; anisotropic rotated models in the pipeline sub-check; per-object default normalizer instances; SRF variance upscaling with point volumes.",
-    "C19": "a single given moment (mean or variance); process=False with keep_mean=False as a fourth processing mode; the source field stays unchanged.",
-    "C20": "lat-lon lags beyond half the circumference in the fitting entry; model parameter arrays (constructor / setters), unsorted ndarray class values and thresholds, out-of-domain normalizer data, CondSRF store variants with and without nugget, the public get_scaling helper.",
+    "C13": "per-axis length scales on used space-time models; a second fit on the same arrays; a second request on one object for points inside the allclose window; kriging objects whose model is exchanged / changed in place; r2 of lat-lon fits recomputed in the great-circle geometry; structured lat-lon default bins; dim setter on temporal models; exact kriging at data locations written with other longitude labels.",
+    "C14": "fixed values handed to fit_variogram in any keyword order (fit_fixed); constructor keywords vs setters (ctor sub-check); list parameters also as float arrays overwritten by the caller; isometrize and integral scale compared after every step / at the end; one set_arg_bounds call for var and another argument in either keyword order; lower cut-offs of 1e-8 ... 1e-10.",
+    "C15": "dispatching wrappers with vanishing / cancelling right-hand-side columns; SRF requests above 2^26 point-mode pairs; estimate-only vs estimate-and-variance kriging path around a new mean; obtuse / reversed direction pairs; wrapper amplitudes over 120 decades; tolerances / bandwidths / lattice points and sparse masked axis data handed unchanged to the kernels; directional counts vs the enumeration for tolerances up to infinity; kriging requests of ~1e7 right-hand-side entries vs a direct solve.",
+    "C16": "vector fields made isotropic in place (anis, equal length list) on stored / passed positions; one request per stencil offset far from the origin; settings handed through set_generator; vector fields stored on meshio points / cell blocks (mesh_vectors); requests up to 140000 points; SRFs reused after in-place dim / len_scale / mode_no changes.",
+    "C17": "internal dimension 4; calls on stored positions when a request repeats; period arrays re-used by the caller; length units of 1e-6.",
+    "C18": "error budget of the limit formula inside the lmbda switch, lmbda down to 1e-300; trend assigned through the property; identity applied as processed transformation to scalar and vector fields; shift-only fits of BoxCoxShift; anisotropic rotated models in the pipeline sub-check; per-object default normalizer instances; SRF variance upscaling with point volumes.",
+    "C19": "target intervals in small units / narrow far from zero; a single given moment (mean or variance); process=False with keep_mean=False as a fourth processing mode; the source field stays unchanged.",
+    "C20": "masked conditioning values of kriging; lat-lon lags beyond half the circumference in the fitting entry; model parameter arrays (constructor / setters), unsorted ndarray class values and thresholds, out-of-domain normalizer data, CondSRF store variants with and without nugget, the public get_scaling helper.",
 }
 
 
